@@ -19,6 +19,8 @@ package motion
 import (
 	"errors"
 	"reflect"
+	"sync"
+	"sync/atomic"
 	"time"
 
 	"github.com/TheCacophonyProject/go-cptv/cptvframe"
@@ -97,6 +99,7 @@ type MotionProcessor struct {
 	StartSnapshot     bool
 	SnapshotRecording bool
 	snapshotFrames    int
+	snapshotMu        sync.Mutex // guards StartSnapshot
 }
 
 type RecordingListener interface {
@@ -117,21 +120,43 @@ func (mp *MotionProcessor) Process(rawFrame []byte) error {
 		mp.stopConstantRecorder()
 		return err
 	}
-	mp.CurrentFrame += 1
+	atomic.AddUint32(&mp.CurrentFrame, 1)
 	mp.process(frame)
 	mp.processConstantRecorder(frame)
 	mp.processSnapshot(frame)
 	return nil
 }
 
+// RequestSnapshot asks for a test recording starting with the next frame. It
+// can be called from any goroutine.
+func (mp *MotionProcessor) RequestSnapshot() {
+	mp.snapshotMu.Lock()
+	mp.StartSnapshot = true
+	mp.snapshotMu.Unlock()
+}
+
+// FrameCount returns the number of frames processed so far. It can be called
+// from any goroutine.
+func (mp *MotionProcessor) FrameCount() uint32 {
+	return atomic.LoadUint32(&mp.CurrentFrame)
+}
+
+func (mp *MotionProcessor) takeSnapshotRequest() bool {
+	mp.snapshotMu.Lock()
+	defer mp.snapshotMu.Unlock()
+	requested := mp.StartSnapshot
+	mp.StartSnapshot = false
+	return requested
+}
+
 func (mp *MotionProcessor) processSnapshot(frame *cptvframe.Frame) {
-	if mp.StartSnapshot && mp.SnapshotRecording {
+	startSnapshot := mp.takeSnapshotRequest()
+	if startSnapshot && mp.SnapshotRecording {
 		// A test recording is already in progress, ignore the new request.
-		mp.StartSnapshot = false
+		startSnapshot = false
 	}
-	if mp.StartSnapshot {
+	if startSnapshot {
 		mp.log.Printf("making a snapshot")
-		mp.StartSnapshot = false
 		if err := mp.snapshotRecorder.StartRecording(mp.motionDetector.background, 0); err != nil {
 			mp.log.Printf("error with starting constant recorder: %v", err)
 			return
@@ -233,7 +258,7 @@ func (mp *MotionProcessor) ProcessFrame(srcFrame *cptvframe.Frame) {
 }
 
 func (mp *MotionProcessor) GetRecentFrame() (uint32, *cptvframe.Frame) {
-	return mp.CurrentFrame, mp.frameLoop.CopyRecent()
+	return mp.FrameCount(), mp.frameLoop.CopyRecent()
 }
 
 func (mp *MotionProcessor) canStartWriting() error {
